@@ -1,2 +1,4 @@
 pub mod pair;
 pub mod sem;
+pub mod syn;
+pub mod bc;
